@@ -162,7 +162,7 @@ def build(c, root):
 
         g.GromacsRunner.SLEEP = c["poll"]
     elif eng_name == "ase":
-        eng = ek.make_ase(root, temperature=300.0, integrator="velocityverlet", subcycles=c["subcycles"], timestep=c["dt"])
+        eng = ek.make_ase(root, temperature=300.0, integrator="velocityverlet", subcycles=c["subcycles"], timestep=c["dt"], forces=c.get("forces", False))
         from ase import Atoms
         from ase.io import Trajectory
 
@@ -174,7 +174,7 @@ def build(c, root):
             tr.write(at)
         tr.close()
     elif eng_name == "turtlemd":
-        eng = ek.make_turtlemd(root, [1.0, 2.0, 3.0, 1.0][:n], pos.tolist(), temperature=1.0, integrator="VelocityVerlet", subcycles=c["subcycles"], timestep=c["dt"] * 0.01)
+        eng = ek.make_turtlemd(root, [1.0, 2.0, 3.0, 1.0][:n], pos.tolist(), temperature=1.0, integrator="VelocityVerlet", subcycles=c["subcycles"], timestep=c["dt"] * 0.01, forces=c.get("forces", False))
         from infretis.classes.engines.engineparts import write_xyz_trajectory
 
         src = os.path.join(srcdir, "start.xyz")
@@ -251,6 +251,8 @@ def cases(draw, engines):
                  "trr_double": draw(st.booleans()), "trr_endian": draw(st.sampled_from([">", "<"]))}}
     if c["beh"]["die_at"] is not None and c["beh"]["exit_code"] == 0:
         c["beh"]["exit_code"] = 3
+    if c["beh"]["die_at"] is not None and draw(st.sampled_from([False, False, True])):
+        c["beh"]["die_signal"] = draw(st.sampled_from([9, 6, 11]))  # killed / abort / segfault instead of an exit code
     if eng in EXT and draw(st.sampled_from([False, False, True])):
         # the command is a wrapper / launcher: the worker is its child and lingers after its last frame
         c["beh"]["launcher"] = True
@@ -310,7 +312,7 @@ def body(rec, c):
         if c["beh"]["box_rate"]:
             classes.append("varying-box")
         if will_die:
-            classes.append("program-dies-with-exit-code")
+            classes.append("program-dies-by-signal" if c["beh"].get("die_signal") else "program-dies-with-exit-code")
         if c["beh"].get("launcher") and eng_name in EXT:
             classes.append("program-is-a-launcher-with-a-worker-child")
         if len(orders) == c["maxlen"]:
@@ -380,6 +382,63 @@ def rev_cases(draw):
     return c
 
 
+# ---------------------------------------------------- in-process engines with real forces: sub-cycling and retracing
+@st.composite
+def force_cases(draw):
+    c = draw(cases(INPROC))
+    c["beh"].update({"die_at": None, "exit_code": 0, "box_rate": 0.0})
+    c["forces"] = True
+    c["width"], c["reverse"], c["vel_rev"], c["op"], c["src_index"], c["src_extra"] = 50.0, False, False, "distance", 0, 0
+    c["subcycles"] = draw(st.integers(2, 4))
+    c["maxlen"] = draw(st.integers(3, 7))
+    # atoms 0 and 1 within interaction range and not on top of each other
+    c["pos"][1] = [c["pos"][0][0] + draw(st.floats(1.1, 3.0).map(lambda x: round(x, 3))), c["pos"][0][1] + 0.5, c["pos"][0][2]]
+    return c
+
+
+def body_force(rec, c):
+    """Frame k of a run with s MD steps per frame is MD step k*s of a run with one step per frame (same start, deterministic
+    integrator); a backward run from frame j retraces the forward one. Forces vary along the trajectory (spring / Lennard-Jones)."""
+    from infretis.classes.path import Path
+
+    eng_name = c["engine"]
+    root = isolate.mkscratch("frc_")
+    try:
+        s, m = c["subcycles"], c["maxlen"]
+        ens_set = {"interfaces": (-1e9, 0.0, 1e9), "ens_name": "007"}
+        c1 = dict(c, subcycles=1)
+        eng1, src1 = build(c1, os.path.join(root, "one"))
+        fine = Path(maxlen=s * (m - 1) + 1)
+        eng1.propagate(fine, ens_set, ek.system_for(src1, 0), reverse=False)
+        engs, srcs = build(c, os.path.join(root, "sub"))
+        coarse = Path(maxlen=m)
+        engs.propagate(coarse, ens_set, ek.system_for(srcs, 0), reverse=False)
+        ffine = [frame_of(pp.config) for pp in fine.phasepoints]
+        fcoarse = [frame_of(pp.config) for pp in coarse.phasepoints]
+        moved = float(np.abs(ffine[-1]["vel"][:2] - ffine[0]["vel"][:2]).max())
+        rec.case(key=c, nontrivial=moved > 1e-6, classes=["forces", "forces:" + eng_name, f"forces:subcycles={s}"],
+                 sample={"engine": eng_name, "subcycles": s, "frames": m, "velocity_change_of_atoms_0_1": moved} if len(rec.samples) < 1 else None)
+        rec.check(len(fcoarse) == m and len(ffine) == s * (m - 1) + 1, f"{eng_name}:forces:length", f"{len(fcoarse)} / {len(ffine)}")
+        tol = 1e-7
+        for k in range(m):
+            a, b = fcoarse[k], ffine[k * s]
+            dx = float(np.abs(a["pos"] - b["pos"]).max())
+            dv = float(np.abs(a["vel"] - b["vel"]).max())
+            rec.check(dx <= tol and dv <= tol, f"{eng_name}:frame-k-of-a-subcycled-run-is-not-md-step-k*s", f"frame {k} (subcycles {s}): max |dx| {dx:.3g} |dv| {dv:.3g} case={c}")
+        # retrace: backward from coarse frame j
+        j = m - 1
+        bwd = Path(maxlen=j + 1)
+        engs.propagate(bwd, ens_set, ek.system_for(coarse.phasepoints[j].config[0], j, vel_rev=False), reverse=True)
+        fb = [frame_of(pp.config) for pp in bwd.phasepoints]
+        rec.check(len(fb) == j + 1, f"{eng_name}:forces:backward-length", f"{len(fb)} vs {j + 1}")
+        for i, b in enumerate(fb):
+            f = fcoarse[j - i]
+            dx = float(np.abs(b["pos"] - f["pos"]).max())
+            rec.check(dx <= 5e-6, f"{eng_name}:backward-propagation-does-not-retrace-forward(with-forces)", f"backward frame {i} vs forward frame {j - i}: max |dx| {dx:.3g} case={c}")
+    finally:
+        isolate.rmscratch(root)
+
+
 def body_rev(rec, c):
     from infretis.classes.path import Path
 
@@ -445,7 +504,7 @@ def body_plug(rec, c):
         wd.close()
 
 
-PARTS = {"external": (ext_cases, body), "inprocess": (inproc_cases, body), "reversibility": (rev_cases, body_rev), "plug-in": (plug_cases, body_plug)}
+PARTS = {"external": (ext_cases, body), "inprocess": (inproc_cases, body), "reversibility": (rev_cases, body_rev), "forces": (force_cases, body_force), "plug-in": (plug_cases, body_plug)}
 
 
 def run(ctx):
@@ -459,13 +518,16 @@ def run(ctx):
         "readers, that frame's own box and velocity direction); no frame after the first outside one, success iff the last frame is outside, "
         "else length = maxlen; no process of the run directory alive afterwards; non-zero exit without a stop request raises RuntimeError; "
         "energies E_k=f(k) sit on frame k. Reversibility: backward from frame j of a forward run retraces frames j..0. "
-        "Non-trivial: several frames per flush, varying box, velocity-dependent parameter with reverse, stop exactly at maxlen, program failure."
+        "Part `forces`: ASE (spring calculator) and TurtleMD (Lennard-Jones) with 2-4 MD steps per frame against the same start with one step per frame "
+        "(frame k = MD step k*s to 1e-7), and retracing with forces. External programs may be launchers with a worker child, and may die by a signal. "
+        "Non-trivial: several frames per flush, varying box, velocity-dependent parameter with reverse, stop exactly at maxlen, program failure; forces: velocities of atoms 0/1 changed."
     )
     ctx.assumptions = ["real MD programs are absent: the engine loops are exercised against fake programs emitting the documented formats",
                        "reversible dynamics = free flight with elastic reflection (fakes), ASE/TurtleMD velocity Verlet without forces; tolerance 5e-6 (formats keep 9-10 decimals)"]
     run_property(ctx, "external", ext_cases, body, ctx.pick(640, 6400), shards=ctx.procs, shrink=not ctx.quick)
     run_property(ctx, "inprocess", inproc_cases, body, ctx.pick(320, 3200), shards=ctx.procs, shrink=not ctx.quick)
     run_property(ctx, "reversibility", rev_cases, body_rev, ctx.pick(160, 1600), shards=ctx.procs, shrink=not ctx.quick)
+    run_property(ctx, "forces", force_cases, body_force, ctx.pick(96, 960), shards=ctx.procs, shrink=not ctx.quick)
     run_property(ctx, "plug-in", plug_cases, body_plug, ctx.pick(1500, 20000))
 
 
